@@ -905,7 +905,9 @@ class ValueFunc(Value):
         self.secure = True
 
     def __hash__(self):
-        return hash(self.name)
+        # functions are equal only to themselves; the name can change
+        # (def g = f renames f), so it must not feed the hash
+        return id(self)
 
     def __eq__(self, other):
         return self is other
